@@ -14,3 +14,5 @@ import FP.Props.C07
 #print axioms FP.Props.C07.table_fully_classified
 #print axioms FP.Props.C07.loop_only_models_empty
 #print axioms FP.Props.C07.aggregates_documented
+#print axioms FP.Props.C07.strict_path_on_empty
+#print axioms FP.Props.C07.expr_arith_empty
